@@ -29,9 +29,22 @@ MANIFEST = {
 }
 
 
-def _flat_jac(f, x):
+_JAC = {}
+
+
+def _flat_jac(f, x, owner=None, args=()):
+    """Flattened autodiff Jacobian of f at x.  With `owner` (the bijection object) the jitted Jacobian is cached per object,
+    which avoids re-tracing for every input."""
     jax, jnp = lv.lib()["jax"], lv.lib()["jnp"]
-    J = np.asarray(jax.jacobian(f)(jnp.asarray(x)), dtype=float)
+    if owner is not None:
+        key = (id(owner), len(args))
+        if key not in _JAC:
+            if len(_JAC) > 64:
+                _JAC.clear()
+            _JAC[key] = (owner, jax.jit(jax.jacobian(lambda v, *a: owner.transform(v, *a))))
+        J = np.asarray(_JAC[key][1](jnp.asarray(x, dtype=float), *args), dtype=float)
+    else:
+        J = np.asarray(jax.jacobian(f)(jnp.asarray(x)), dtype=float)
     n = int(np.prod(np.shape(x))) if np.ndim(x) else 1
     return J.reshape(n, n)
 
@@ -70,13 +83,13 @@ def autodiff_errors(spec, obj, x, cond=None, tol=1e-7):
             left = yv == lo
             w = (pos[1] - pos[0]) if left else (pos[-1] - pos[-2])
             h = 1e-6 * w * (1 if left else -1)
-            l1 = np.log(float(_flat_jac(obj.transform, np.asarray(xv + h))[0, 0]))
-            l2 = np.log(float(_flat_jac(obj.transform, np.asarray(xv + 2 * h))[0, 0]))
+            l1 = np.log(float(_flat_jac(None, np.asarray(xv + h), owner=obj)[0, 0]))
+            l2 = np.log(float(_flat_jac(None, np.asarray(xv + 2 * h), owner=obj)[0, 0]))
             ref = 2 * l1 - l2
             if np.isfinite(ref) and not abs(ld - ref) <= 1e-5 * max(1.0, abs(ld)) + 4 * abs(l1 - l2) ** 2:
                 errs.append(f"log_det {ld!r} at x = {xv!r} (image on the interval end) differs from ln|inner one-sided derivative| = {float(ref)!r}")
             return errs
-    J = _flat_jac(lambda v: obj.transform(v, *args), x)
+    J = _flat_jac(None, x, owner=obj, args=args)
     sign, ref = np.linalg.slogdet(J)
     if sign == 0 or not np.isfinite(ref):
         return errs
